@@ -152,7 +152,7 @@ def _rewrite_body(text, rw):
                 cut = k
                 break
         cond = text[o + 1:e] if cut is None else text[o + 1:o + 1 + cut]
-        text = text[:mm.start()] + 'assert(' + cond.strip() + ')' + text[e + 1:]
+        text = text[:mm.start()] + 'if !(' + cond.strip() + ') { vp_debug_assert_failed(); }' + text[e + 1:]
         rw.hit('W8.debug_assert_to_proof_obligation')
     # W5: match arm `=> _ = expr,`  ->  `=> { let _ = expr; }`
     def w5(mm):
@@ -160,7 +160,7 @@ def _rewrite_body(text, rw):
         return f'=> {{ let _ = {mm.group(1)}; }}'
     text = re.sub(r'=>\s*_\s*=\s*([^,\n]+),', w5, text)
     # W5b: statement `_ = expr;` -> `let _ = expr;`
-    text, n = re.subn(r'(?m)^([ \t]*)_\s*=\s*', r'\1let _ = ', text)
+    text, n = re.subn(r'(?m)^([ \t]*)_\s*=(?![=>])\s*', r'\1let _ = ', text)
     rw.hit('W5.underscore_assignment_stmt', n)
     # W6: `X.drain(..n)` whose iterator is dropped at once -> trusted wrapper with std's documented effect
     def w6(mm):
